@@ -282,6 +282,10 @@ class Expr:
             raise ModelGap("any(ignore_nulls=False)")
         return self._map(lambda c, fr: _Agg([zor(z3.And(p, z3.Not(n), v) for v, n, p in zip(c.vals, c.nulls, fr.present))], [F], real_pl.Boolean))
 
+    def null_count(self):
+        """number of null cells among the rows of the frame (NaN is not null)"""
+        return self._map(lambda c, fr: _Agg([z3.Sum([z3.If(z3.And(p, n), 1, 0) for n, p in zip(c.nulls, fr.present)] + [z3.IntVal(0)])], [F], real_pl.UInt32))
+
     def fill_null(self, value):
         def g(c, fr):
             d = _as_col(value, fr, c)
